@@ -707,11 +707,12 @@ def suite_grid_node_number(ctx, Grid, rng, ncases):
     # queries that include near-ties (points within 2^-60 .. 2^-20 relative of a bisector), and
     # the Lean model evaluated in IEEE double / single arithmetic in the order of the source
     # must take the same decision (requests gridnnf / gridnnf32).
-    freqs, fimpl = [], []
+    freqs, fimpl, fmeta = [], [], []
     flipped = 0
+    fstat = {"same": 0, "other-near-tie": 0}
     for c in range(ncases // 2):
         cur = {}
-        with ImplGuard(ctx, "Grid.node_number:float-stream", cur, [freqs, fimpl]):
+        with ImplGuard(ctx, "Grid.node_number:float-stream", cur, [freqs, fimpl, fmeta]):
             n = rng.choice([2, 3, 5, 9, 20])
             d = rng.choice([1, 2, 3, 4, 5])
             scale = 2.0 ** rng.choice([0, 0, 0, -8, 10])
@@ -761,6 +762,7 @@ def suite_grid_node_number(ctx, Grid, rng, ncases):
             freqs.append(f"{tag} {d} {n} {enc_ratmat(X.tolist())} {enc_rats(q)}")
             fimpl.append(ans)
             lo, hi = (1 - u) ** (d + 5), (1 + u) ** (d + 5)
+            fmeta.append((s2, lo, hi, [tuple(X[:, i]) for i in range(n)]))
             ok = got is not None and 0 <= got < n and lo * s2[got] <= hi * min(s2)
             if ok and s2[got] != min(s2):
                 flipped += 1
@@ -784,8 +786,29 @@ def suite_grid_node_number(ctx, Grid, rng, ncases):
     ctx.extra["grid_node_number_float"] = {
         "cases": len(freqs), "rounding_changed_the_exact_argmin": flipped,
         "bound": "(1-u)^(d+5) s2[k] <= (1+u)^(d+5) min s2, u = 2^-53 (float64) / 2^-24 (float32)"}
-    ctx.correspond("Lean gridNodeNumber in IEEE Float / Float32 (source order) == Grid.node_number "
-                   "on float queries incl. near-ties", freqs, fimpl)
+
+    def judge_f(i, m):
+        # the model evaluated in IEEE arithmetic in the order of the source and the implementation
+        # must agree — up to what theorem gridNodeNumber_rounded leaves open: two different nodes
+        # are accepted only if each is nearest up to the rounding factor (decided in Fractions)
+        # and they do not have identical coordinates (then both must return the first)
+        s2, lo, hi, cols = fmeta[i]
+        if m == fimpl[i]:
+            fstat["same"] += 1
+            return None
+        if m.isdigit() and fimpl[i].isdigit() and int(m) < len(s2) and int(fimpl[i]) < len(s2):
+            a, b = int(m), int(fimpl[i])
+            if lo * s2[a] <= hi * s2[b] and lo * s2[b] <= hi * s2[a] and cols[a] != cols[b]:
+                fstat["other-near-tie"] += 1
+                return None
+        return f"model={m} impl={fimpl[i]}"
+
+    custom_correspond(ctx, "Lean gridNodeNumber in IEEE Float / Float32 (source order) ~ Grid.node_number "
+                      "on float queries incl. near-ties (same node, or two nodes within the rounding "
+                      "factor of gridNodeNumber_rounded)", freqs, judge_f)
+    ctx.extra["grid_node_number_float"]["model_same_node"] = fstat["same"]
+    ctx.extra["grid_node_number_float"]["model_other_node_within_rounding_factor"] = \
+        fstat["other-near-tie"]
 
 
 # --------------------------------------------------------------------------
@@ -1014,8 +1037,7 @@ def suite_angular(ctx, GeoGrid, rng, ncases, K):
                     kreqs.append("cosangf32 %d %s %s %s %s" % (
                         n, enc_rats(map(float, g.sin_lat())), enc_rats(map(float, g.cos_lat())),
                         enc_rats(map(float, g.sin_lon())), enc_rats(map(float, g.cos_lon()))))
-                    kimpl.append(";".join(",".join(str(int(b)) for b in row)
-                                          for row in C32.view(np.uint32)) or "-")
+                    kimpl.append(C32.copy())
             for clause, what in viol:
                 ctx.fail({"kind": "angular", "class": "GeoGrid", "method": "angular_distance",
                           "clause": clause},
@@ -1076,8 +1098,38 @@ def suite_angular(ctx, GeoGrid, rng, ncases, K):
         "max_abs_err_log2": round(math.log2(stats["abs"]), 2) if stats["abs"] else None,
         "max_rel_err_mid_log2": round(math.log2(stats["rel"]), 2) if stats["rel"] else None,
         "bounds_log2": {"abs": -10, "rel_mid": -17}}
-    ctx.correspond("Lean cosAngKernel in IEEE Float32 == _calculate_angular_distance on the grid's own "
-                   "float32 tables (bit patterns of every stored cosine)", kreqs, kimpl)
+    kstat = {"entries": 0, "bitwise": 0}
+
+    def judge_k(i, m):
+        # both are float32 evaluations of the same clamped expression on the same tables:
+        # theorem rcos_core puts each within ((1+u)^5 - 1)(1+kappa)^2 < 2^-21 of the exact value,
+        # so they differ by less than 2^-20 whatever the order of the roundings; floats are not
+        # compared for equality (the share of bitwise equal entries is recorded as evidence)
+        C = kimpl[i]
+        try:
+            Mm = np.array([[int(t) for t in r.split(",")] for r in m.split(";")],
+                          dtype=np.uint32).view(np.float32) if m != "-" else np.zeros((0, 0), np.float32)
+        except ValueError:
+            return f"model answer {m[:80]}"
+        if Mm.shape != C.shape:
+            return f"shape model {Mm.shape} impl {C.shape}"
+        if np.isnan(C).any() or np.isnan(Mm).any():
+            return "NaN"
+        kstat["entries"] += C.size
+        kstat["bitwise"] += int((C.view(np.uint32) == Mm.view(np.uint32)).sum())
+        dd = np.abs(C.astype(np.float64) - Mm.astype(np.float64))
+        if dd.size and dd.max() >= 2.0 ** -20:
+            a, b = np.unravel_index(int(dd.argmax()), dd.shape)
+            return (f"entry [{a},{b}]: kernel {float(C[a, b])!r}, model (Float32) "
+                    f"{float(Mm[a, b])!r}")
+        return None
+
+    custom_correspond(ctx, "Lean cosAngKernel in IEEE Float32 ~ _calculate_angular_distance on the grid's "
+                      "own float32 tables, all sizes incl. 130 nodes (every stored cosine within 2^-20)",
+                      kreqs, judge_k)
+    ctx.extra["kernel_float32_model"] = {
+        "entries": kstat["entries"], "bitwise_equal": kstat["bitwise"],
+        "note": "model cosAngKernel executed in Float32 in the order of the source"}
     custom_correspond(ctx, "Lean gridDistance .geo (Float, GeoGrid object) ~ GeoGrid.angular_distance / distance "
                       "(abs < 2^-10, rel <= 2^-17 on [0.25, pi-0.25])", reqs, judge)
 
